@@ -336,9 +336,22 @@ type SetItem struct {
 	Val any    `json:"val"`
 }
 
+// JoinSpec: SELECT ... FROM Tables[0] JOIN Tables[1] ON On[0] [JOIN Tables[2] ON On[1]] WHERE conj
+type JoinOn struct {
+	L string `json:"l"` // qualified column "t0.a"
+	R string `json:"r"`
+}
+
+type JoinSpec struct {
+	Tables []string `json:"tables"`
+	On     []JoinOn `json:"on"`
+}
+
 type Stmt struct {
 	Kind  string    `json:"kind"` // insert | update | delete | select
 	Table string    `json:"table"`
+	Join  *JoinSpec `json:"join,omitempty"` // select over several tables: Cols and Where use qualified names
+	Plan  bool      `json:"plan,omitempty"` // insert through the plan-level API (values the SQL literal forms cannot express)
 	Cols  []string  `json:"cols,omitempty"` // insert target columns / select list
 	Rows  [][]any   `json:"rows,omitempty"`
 	Set   []SetItem `json:"set,omitempty"`
@@ -374,6 +387,16 @@ func (s *Stmt) SQL() string {
 		}
 		return q + ";"
 	case "select":
+		if s.Join != nil {
+			q := "SELECT " + strings.Join(s.Cols, ", ") + " FROM " + s.Join.Tables[0]
+			for i, on := range s.Join.On {
+				q += " JOIN " + s.Join.Tables[i+1] + " ON " + on.L + " = " + on.R
+			}
+			if s.Where != nil {
+				q += " WHERE " + s.Where.SQL()
+			}
+			return q + ";"
+		}
 		q := "SELECT " + strings.Join(s.Cols, ", ") + " FROM " + s.Table
 		if s.Where != nil {
 			q += " WHERE " + s.Where.SQL()
@@ -431,6 +454,9 @@ func (x *MTxn) view(t *MTable) []viewRow {
 // Apply evaluates the statement against the transaction's view, records its writes in the
 // overlay, and returns the rows a SELECT returns (in the written column order).
 func (x *MTxn) Apply(s *Stmt) (rows [][]any, err error) {
+	if s.Kind == "select" && s.Join != nil {
+		return x.applyJoin(s)
+	}
 	t := x.m.Table(s.Table)
 	if t == nil {
 		return nil, fmt.Errorf("model: no table %s", s.Table)
@@ -554,4 +580,134 @@ func (x *MTxn) Touches(y *MTxn) bool {
 		}
 	}
 	return false
+}
+
+// applyJoin: naive nested-loop evaluation of an equality join with a conjunctive filter.
+func (x *MTxn) applyJoin(s *Stmt) ([][]any, error) {
+	var tabs []*MTable
+	for _, tn := range s.Join.Tables {
+		t := x.m.Table(tn)
+		if t == nil {
+			return nil, fmt.Errorf("model: no table %s", tn)
+		}
+		tabs = append(tabs, t)
+	}
+	// qualified column -> (table index, column index)
+	lookup := func(q string) (int, int, error) {
+		parts := strings.SplitN(q, ".", 2)
+		if len(parts) != 2 {
+			return 0, 0, fmt.Errorf("model: unqualified column %s in join", q)
+		}
+		for ti, t := range tabs {
+			if t.Name == parts[0] {
+				ci := t.ColIdx(parts[1])
+				if ci < 0 {
+					return 0, 0, fmt.Errorf("model: no column %s", q)
+				}
+				return ti, ci, nil
+			}
+		}
+		return 0, 0, fmt.Errorf("model: table of %s not joined", q)
+	}
+	views := make([][]viewRow, len(tabs))
+	for i, t := range tabs {
+		views[i] = x.view(t)
+	}
+	var conj []*Pred
+	var flatten func(p *Pred) error
+	flatten = func(p *Pred) error {
+		if p == nil {
+			return nil
+		}
+		if p.Logic == "AND" {
+			if err := flatten(p.L); err != nil {
+				return err
+			}
+			return flatten(p.R)
+		}
+		if p.Logic != "" {
+			return fmt.Errorf("model: only conjunctive filters on joins")
+		}
+		conj = append(conj, p)
+		return nil
+	}
+	if err := flatten(s.Where); err != nil {
+		return nil, err
+	}
+	var out [][]any
+	cur := make([][]any, len(tabs))
+	var rec func(i int) error
+	rec = func(i int) error {
+		if i == len(tabs) {
+			for _, on := range s.Join.On {
+				lt, lc, err := lookup(on.L)
+				if err != nil {
+					return err
+				}
+				rt, rc, err := lookup(on.R)
+				if err != nil {
+					return err
+				}
+				c, ok := cmpVals(cur[lt][lc], cur[rt][rc])
+				if !ok || c != 0 {
+					return nil
+				}
+			}
+			for _, p := range conj {
+				ti, ci, err := lookup(p.Col)
+				if err != nil {
+					return err
+				}
+				c, ok := cmpVals(cur[ti][ci], p.Val)
+				if !ok {
+					return nil
+				}
+				pass := false
+				switch p.Op {
+				case "=":
+					pass = c == 0
+				case "<>", "!=":
+					pass = c != 0
+				case "<":
+					pass = c < 0
+				case "<=":
+					pass = c <= 0
+				case ">":
+					pass = c > 0
+				case ">=":
+					pass = c >= 0
+				}
+				if !pass {
+					return nil
+				}
+			}
+			var row []any
+			if len(s.Cols) == 1 && s.Cols[0] == "*" {
+				for ti := range tabs {
+					row = append(row, cur[ti]...)
+				}
+			} else {
+				for _, qc := range s.Cols {
+					ti, ci, err := lookup(qc)
+					if err != nil {
+						return err
+					}
+					row = append(row, cur[ti][ci])
+				}
+			}
+			out = append(out, row)
+			return nil
+		}
+		for _, vr := range views[i] {
+			cur[i] = vr.vals
+			if err := rec(i + 1); err != nil {
+				return err
+			}
+		}
+		return nil
+	}
+	if err := rec(0); err != nil {
+		return nil, err
+	}
+	return out, nil
 }
